@@ -289,3 +289,39 @@ pub fn stack_pop_then_push() {
     let mut i = 0; while i < nw { assert!(words.buf[i] == spec[i], "C16: export after pops and a push differs from the packing of the remaining bits (stale bits)"); i += 1; }
     cover!(k == 2 && n == 9, "pops cross the word boundary");
 }
+
+/// C16 / C08: decoders and iterators derived from the bit coders (Vec backend): as_decoder / iter
+/// pop the bits in reverse order and leave the coder untouched; into_decoder / into_iterator do
+/// the same by value; the queue encoder's into_decoder yields the bits in the order written.
+#[cfg_attr(kani, kani::proof)]
+#[cfg_attr(kani, kani::unwind(13))]
+pub fn derived_decoders() {
+    let b = any_arr::<bool, { MAXB + 2 }>();
+    let n: usize = any(); assume(n <= MAXB);
+    let grp = group(3);
+    if grp == 2 {
+        let mut q = QueueEncoder::<u8, Vec<u8>>::with_bit_capacity(32);
+        let mut i = 0; while i < n { q.write_bit(b[i]).unwrap(); i += 1; }
+        let mut d = match q.into_decoder() { Ok(d) => d, Err(_) => return };
+        let mut i = 0; while i < n { assert!(matches!(d.read_bit(), Ok(Some(x)) if x == b[i]), "C16: queue into_decoder must return the bits in the order written"); i += 1; }
+        return;
+    }
+    let mut s = StackCoder::<u8, Vec<u8>>::with_bit_capacity(32);
+    let mut i = 0; while i < n { s.write_bit(b[i]).unwrap(); i += 1; }
+    if grp == 0 {
+        {
+            let mut d = s.as_decoder();
+            let mut i = n; while i > 0 { assert!(matches!(d.read_bit(), Ok(Some(x)) if x == b[i - 1]), "C16/C08: as_decoder must pop the bits in reverse order"); i -= 1; }
+            assert!(matches!(d.read_bit(), Ok(None)), "C16/C08: as_decoder sees more bits than were written");
+        }
+        assert!(s.len() == n, "C08/C16: as_decoder changed the coder");
+        let mut k = 0usize;
+        for r in s.iter() { assert!(k < n && matches!(r, Ok(x) if x == b[n - 1 - k]), "C16/C08: iter must yield the bits in reverse order"); k += 1; }
+        assert!(k == n, "C16/C08: iter yields a different number of bits than were written");
+        assert!(s.len() == n, "C08/C16: iter changed the coder");
+    } else {
+        let mut d = s.into_decoder();
+        let mut i = n; while i > 0 { assert!(matches!(d.read_bit(), Ok(Some(x)) if x == b[i - 1]), "C16: into_decoder must pop the bits in reverse order"); i -= 1; }
+        assert!(matches!(d.read_bit(), Ok(None)), "C16: into_decoder sees more bits than were written");
+    }
+}
